@@ -175,9 +175,15 @@ class ProgGen:
             base_units = [u["name"] for u in self.spec["units"] if u.get("offset") is None]
             target = rng.choice(base_units)  # only units of the file: deleting a step never orphans a reference
             kind = rng.random()
+            plural_twin = False
             if kind < 0.35 and ps:
                 # a new spelling that used to be read as prefix + unit
                 name = rng.choice(ps) + rng.choice(us)
+            elif kind < 0.45 and ps:
+                # the plural of a unit spelling becomes a unit of its own: prefixed strings that used to be read as
+                # prefix + unit + plural s now have a second reading, and parses memoised before must not be served
+                name = rng.choice(us) + "s"
+                plural_twin = True
             elif kind < 0.6 and spare:
                 name = spare[self.ndef % len(spare)] + str(self.ndef)
             else:
@@ -200,6 +206,12 @@ class ProgGen:
                 line = f"{pname}- = 1e{rng.choice([2, 3, -2])} = {name}-"
                 self.table.add_prefix(pname, None, name, [])
             self.pool.extend([name, name + "s"] + [p + name for p in ps[:2]])
+            if plural_twin and name.endswith("s") and name not in (f"nu{self.ndef}", f"nq{self.ndef}"):
+                p1, p2 = rng.choice(ps), rng.choice(ps)
+                first = self.lookup(p1 + name)
+                define = {"id": self.sid(), "k": "define", "line": line}
+                self.pending = [define, self.lookup(p2 + name), self.lookup(p1 + name)]
+                return first
             if kind < 0.35 and ps and rng.random() < 0.5:
                 # the spelling is looked up (and, as prefix + unit, registered) first, then defined, then looked up in
                 # another letter case without regard to case
